@@ -9,6 +9,35 @@ use std::path::PathBuf;
 pub enum Content {
     Doc(Doc),
     Raw(String),
+    /// text of a well-formed generated document whose model is gone (replay files)
+    Tagged { text: String, meta: DocMeta },
+}
+
+/// What a well-formed generated document is expected to parse to (attribution oracle)
+#[derive(Clone, Debug, PartialEq)]
+pub struct DocMeta {
+    pub serial: u64,
+    pub pkg: String,
+    pub name: String,
+    pub kind: String,
+}
+
+impl DocMeta {
+    pub fn to_json(&self) -> J {
+        J::obj()
+            .set("serial", J::u(self.serial))
+            .set("pkg", J::s(self.pkg.clone()))
+            .set("name", J::s(self.name.clone()))
+            .set("kind", J::s(self.kind.clone()))
+    }
+    pub fn from_json(j: &J) -> Option<DocMeta> {
+        Some(DocMeta {
+            serial: j.get("serial")?.as_u64()?,
+            pkg: j.get("pkg")?.as_str()?.to_owned(),
+            name: j.get("name")?.as_str()?.to_owned(),
+            kind: j.get("kind")?.as_str()?.to_owned(),
+        })
+    }
 }
 
 impl Content {
@@ -16,13 +45,40 @@ impl Content {
         match self {
             Content::Doc(d) => d.render(),
             Content::Raw(s) => s.clone(),
+            Content::Tagged { text, .. } => text.clone(),
         }
+    }
+
+    pub fn meta(&self) -> Option<DocMeta> {
+        match self {
+            Content::Doc(d) => Some(DocMeta {
+                serial: d.serial,
+                pkg: d.pkg.clone(),
+                name: d.name.clone(),
+                kind: d.kind.as_str().to_owned(),
+            }),
+            Content::Raw(_) => None,
+            Content::Tagged { meta, .. } => Some(meta.clone()),
+        }
+    }
+
+    /// Content from a replay file
+    pub fn from_json_step(j: &J) -> Result<Content, String> {
+        let text = j
+            .get("text")
+            .and_then(|p| p.as_str())
+            .ok_or("text missing")?
+            .to_owned();
+        Ok(match j.get("meta").and_then(DocMeta::from_json) {
+            Some(meta) => Content::Tagged { text, meta },
+            None => Content::Raw(text),
+        })
     }
 
     pub fn as_doc(&self) -> Option<&Doc> {
         match self {
             Content::Doc(d) => Some(d),
-            Content::Raw(_) => None,
+            Content::Raw(_) | Content::Tagged { .. } => None,
         }
     }
 
@@ -30,6 +86,7 @@ impl Content {
         match self {
             Content::Doc(d) => d.shrink().into_iter().map(Content::Doc).collect(),
             Content::Raw(s) => gen::shrink_raw(s).into_iter().map(Content::Raw).collect(),
+            Content::Tagged { text, .. } => gen::shrink_raw(text).into_iter().map(Content::Raw).collect(),
         }
     }
 }
